@@ -164,7 +164,7 @@ def operator_part(j, cells):
             except Exception:  # noqa: BLE001
                 r1 = "raise"
             cid = (op, L["c"], R["c"], fn_name)
-            site = "%s%s%s" % (L["c"], op + ("=" if fn_name == "iop" else ""), "")
+            site = "%s%s%s" % (L["c"], ("__or__" if op == "|" else op) + ("=" if fn_name == "iop" else ""), "")
             feat = "%s;len(%d,%d)" % (R["c"], L["n"], R["n"])
             changed = []
             if snap(b) != sb:
